@@ -120,7 +120,7 @@ pub enum Case {
 
 const INSTR_BUDGET: usize = 3_000_000;
 
-const CIRCULAR: [(&str, &str); 18] = [
+const CIRCULAR: [(&str, &str); 23] = [
     ("circular-list:list?", "(define c (list 1 2 3)) (set-cdr! (cdr (cdr c)) c) (list? c)"),
     ("circular-list:length", "(define c (list 1 2 3)) (set-cdr! (cdr (cdr c)) c) (length c)"),
     ("circular-list:equal?", "(define c (list 1 2 3)) (set-cdr! (cdr (cdr c)) c) (define d (list 1 2 3)) (set-cdr! (cdr (cdr d)) d) (equal? c d)"),
@@ -137,6 +137,11 @@ const CIRCULAR: [(&str, &str); 18] = [
     ("self-vector:write", "(define v (vector 1 2)) (vector-set! v 0 v) (write v)"),
     ("self-vector:vector-fill!", "(define v (vector 1 2)) (vector-fill! v v) (vector-length v)"),
     ("self-vector:vector->list", "(define v (vector 1 2)) (vector-set! v 1 v) (length (vector->list v))"),
+    ("circular-list:lasso-length", "(define l (list 1 2 3 4 5)) (set-cdr! (list-tail l 4) (cdr l)) (length l)"),
+    ("circular-list:lasso-list?", "(define l (list 1 2 3 4 5 6)) (set-cdr! (list-tail l 5) (cdr (cdr l))) (list? l)"),
+    ("circular-list:lasso-length-last-to-itself", "(define l (list 1 2 3)) (set-cdr! (cdr (cdr l)) (cdr (cdr l))) (length l)"),
+    ("circular-list:lasso-list-tail-and-ref", "(define l (list 1 2 3 4)) (set-cdr! (list-tail l 3) (cdr l)) (list (list-ref l 9) (car (list-tail l 7)))"),
+    ("circular-list:lasso-memq-assq", "(define l (list 1 2 3 4)) (set-cdr! (list-tail l 3) (cdr l)) (if (memq 3 l) (length l) 'no)"),
     ("circular-list:length-in-cond", "(define c (list 1)) (set-cdr! c c) (if (list? c) (length c) 'not-a-list)"),
     ("mutual-cycle:as-value", "(define a (list 1)) (define b (vector a)) (set-car! a b) a"),
 ];
